@@ -248,6 +248,57 @@ def rule_r1(chk, prog, cg, zone):
                           'mutators after it', loc=m.loc(leaves[0] if leaves
                                                          else h),
                           nontrivial=True)
+    # ... and the guard sits inside the loop: a try that encloses the
+    # whole loop over the mutators contains the failure, but ends the loop
+    for modname in ('strategy_ddmin', 'strategy_hierarchical'):
+        m = prog.mod(modname)
+        for lp in ast.walk(m.tree):
+            if not isinstance(lp, ast.For):
+                continue
+            tnames = {x.id for x in ast.walk(lp.target)
+                      if isinstance(x, ast.Name)}
+            pcs = [c for b in lp.body for c in ast.walk(b)
+                   if isinstance(c, ast.Call) and isinstance(
+                       c.func, ast.Attribute) and c.func.attr in PROTOCOL
+                   and isinstance(c.func.value, ast.Name)
+                   and c.func.value.id in tnames]
+            if not pcs:
+                continue
+            f = _fn(lp)
+            for c in pcs:
+                # innermost catch-all try around the call
+                p_ = getattr(c, '_parent', None)
+                child = c
+                guard_inside = None
+                while p_ is not None and p_ is not f:
+                    if isinstance(p_, ast.Try) and any(
+                            catches_all(h) for h in p_.handlers) and any(
+                                child is b or any(child is y
+                                                  for y in ast.walk(b))
+                                for b in p_.body):
+                        # is the loop an ancestor of this try?
+                        a_ = getattr(p_, '_parent', None)
+                        inside = False
+                        while a_ is not None and a_ is not f:
+                            if a_ is lp:
+                                inside = True
+                            a_ = getattr(a_, '_parent', None)
+                        guard_inside = inside
+                        break
+                    child = p_
+                    p_ = getattr(p_, '_parent', None)
+                if guard_inside is None:
+                    continue  # unguarded here: judged above (zone)
+                nloop += 1
+                chk.check('C04.R1', f'{modname}.{f._qualname}',
+                          f'guard of {unparse(c)[:40]} inside the loop over '
+                          f'{sorted(tnames)}', guard_inside,
+                          'the try/except that contains a failing mutator '
+                          'encloses the whole loop over the mutators: the '
+                          'exception ends the loop, the mutators after the '
+                          'failing one are not asked for this node - one '
+                          'failing mutator costs the candidates of all the '
+                          'others', loc=m.loc(c), nontrivial=True)
     chk.floor('C04.R1', 'per-mutator containment handlers in a loop over '
               'the mutators', nloop, 1)
 
